@@ -255,11 +255,13 @@ Definition get_next_sec (c : cp) : cp :=
 
 (* _stage_new_tract: sec / twprge may still be None (then construct_tracts would fail) *)
 Definition stage_new_tract (c : cp) (desc : str) (sec : option (list str)) (twprge : option str) : Py cp :=
-  match sec, twprge with
-  | Some sc, Some tw =>
+  match sec with
+  | Some sc =>
+      (* a working_twprge of None is formatted as 'None' by the f-string in construct_tracts *)
+      let tw := match twprge with Some v => v | None => s "None" end in
       Ok (mk_cp (cp_w c) (cp_wl c) (cp_e c) (cp_el c) (cp_unused c) (cp_tc c ++ [mk_tcomp desc sc tw false])
                 (cp_wt_list c) (cp_ws_list c) (cp_wt c) (cp_ws c) (cp_ltu c) (cp_lsu c))
-  | _, _ => Raise TypeError      (* a None sec/twprge reaches `for sec in None` / f-string 'None' *)
+  | None => Raise TypeError      (* `for sec in None` in construct_tracts *)
   end.
 
 Definition prep_new_tract (c : cp) (desc : str) : Py cp :=
@@ -556,41 +558,53 @@ Definition hand_down (f : flagset) (t : tract_out) : tract_out :=
                            (e_flags (to_flags t) ++ e_flags f) (e_flag_lines (to_flags t) ++ e_flag_lines f)).
 
 (* PLSSParser(text, layout, default_ns, default_ew, ocr_scrub, clean_up, parse_qq, ..., require_colon,
-              segment, ..., sec_within, handed_down_config) *)
-Definition plss_parser (text : str) (layout : option str) (d : dflt) (ocr : bool) (clean_up : option bool)
-           (rc : reqcolon) (segment sec_within : bool) (ts : tsettings) : Py parser_out :=
-  let mandate := negb segment && (match layout with Some _ => true | None => false end) in
-  do pp <- plss_preprocess text d ocr;
-  let '(ptext, fixed) := pp in
-  let layout' := match layout with Some l => l | None => deduce_layout ptext end in
-  let clean_up' := match clean_up with Some b => b | None => negb (str_eqb layout' COPY_ALL) end in
-  let '(w0, wl0) :=
-    match fixed with
-    | [] => ([], [])
-    | _ => let flag := s "fixed_twprge<" ++ join (s ",") (map twprge_natural_to_short fixed) ++ s ">" in ([flag], [(flag, flag)])
-    end in
-  let px := mk_pctx mandate rc sec_within (d_mc_ns d) (d_mc_ew d) in
-  do ch <- (if segment then plss_chunker ptext layout' (d_mc_ns d) (d_mc_ew d) else Ok ([ptext], []));
-  let '(blocks, unused0) := ch in
-  let chunk_layout := if str_eqb layout' COPY_ALL then Some COPY_ALL else None in
-  do st <- parse_chunks blocks chunk_layout px (mk_pstate w0 wl0 [] [] [] unused0);
-  do rs <- (if sec_within then rebuild_sec_within (ps_tc st) (ps_unused st) else Ok (ps_tc st, ps_unused st));
-  let '(tcs, unused) := rs in
-  do ct <- construct_tracts tcs clean_up' 0 ts;
-  let '(tracts, within_idx) := ct in
-  (* examine_unused *)
+              segment, ..., sec_within, handed_down_config) -- in stages, so that proofs can follow them *)
+Definition initial_flags (fixed : list str) : list str * list flagline :=
+  match fixed with
+  | [] => ([], [])
+  | _ => let flag := s "fixed_twprge<" ++ join (s ",") (map twprge_natural_to_short fixed) ++ s ">" in ([flag], [(flag, flag)])
+  end.
+
+Definition chunks_of (segment : bool) (ptext layout' mc_ns mc_ew : str) : Py (list str * list (nat * str)) :=
+  if segment then plss_chunker ptext layout' mc_ns mc_ew else Ok ([ptext], []).
+
+(* everything after the chunks were parsed: sec_within, construct_tracts, examine_unused,
+   check_sec_within_tracts, check_error_tracts, hand_down_flags *)
+(* examine_unused, check_sec_within_tracts, check_error_tracts, hand_down_flags *)
+Definition assemble (st : pstate) (ptext layout' : str) (tracts : list tract_out) (unused : list (nat * str))
+           (wflags : list flagline) : parser_out :=
   let big := filter (fun u => MIN_REPORTABLE_UNUSED_LEN <=? length (snd u)) unused in
   let e1 := ps_e st ++ map (fun u => s "unused_desc<" ++ snd u ++ s ">") big in
   let el1 := ps_el st ++ map (fun u => (s "unused_desc<" ++ snd u ++ s ">", snd u)) big in
-  (* check_sec_within_tracts *)
-  do wflags <- map_py (fun i => match nth_error tracts i with
-                                | Some t => Ok (s "sec_within<" ++ to_trs t ++ s ">", quick_desc_short t)
-                                | None => Raise IndexError end) within_idx;
   let w2 := ps_w st ++ map fst wflags in
   let wl2 := ps_wl st ++ wflags in
-  (* check_error_tracts *)
   let err := existsb (fun t => is_error_trs (to_trs t)) tracts in
   let e2 := if err then e1 ++ [E_FLAG_TWPRGE_ERR] else e1 in
   let el2 := if err then el1 ++ [(E_FLAG_TWPRGE_ERR, E_FLAG_TWPRGE_ERR)] else el1 in
   let f := mk_flagset w2 wl2 e2 el2 in
-  Ok (mk_parser_out ptext layout' (map (hand_down f) tracts) f).
+  mk_parser_out ptext layout' (map (hand_down f) tracts) f.
+
+Definition finish_parse (st : pstate) (sec_within clean_up' : bool) (ts : tsettings) (ptext layout' : str) : Py parser_out :=
+  do rs <- (if sec_within then rebuild_sec_within (ps_tc st) (ps_unused st) else Ok (ps_tc st, ps_unused st));
+  do ct <- construct_tracts (fst rs) clean_up' 0 ts;
+  do wflags <- map_py (fun i => match nth_error (fst ct) i with
+                                | Some t => Ok (s "sec_within<" ++ to_trs t ++ s ">", quick_desc_short t)
+                                | None => Raise IndexError end) (snd ct);
+  Ok (assemble st ptext layout' (fst ct) (snd rs) wflags).
+
+Definition parse_text (ptext : str) (fixed : list str) (layout : option str) (d : dflt) (clean_up : option bool)
+           (rc : reqcolon) (segment sec_within : bool) (ts : tsettings) : Py parser_out :=
+  let mandate := negb segment && (match layout with Some _ => true | None => false end) in
+  let layout' := match layout with Some l => l | None => deduce_layout ptext end in
+  let clean_up' := match clean_up with Some b => b | None => negb (str_eqb layout' COPY_ALL) end in
+  let px := mk_pctx mandate rc sec_within (d_mc_ns d) (d_mc_ew d) in
+  let chunk_layout := if str_eqb layout' COPY_ALL then Some COPY_ALL else None in
+  do ch <- chunks_of segment ptext layout' (d_mc_ns d) (d_mc_ew d);
+  do st <- parse_chunks (fst ch) chunk_layout px
+                        (mk_pstate (fst (initial_flags fixed)) (snd (initial_flags fixed)) [] [] [] (snd ch));
+  finish_parse st sec_within clean_up' ts ptext layout'.
+
+Definition plss_parser (text : str) (layout : option str) (d : dflt) (ocr : bool) (clean_up : option bool)
+           (rc : reqcolon) (segment sec_within : bool) (ts : tsettings) : Py parser_out :=
+  do pp <- plss_preprocess text d ocr;
+  parse_text (fst pp) (snd pp) layout d clean_up rc segment sec_within ts.
